@@ -1,10 +1,13 @@
 (* Transaction blocks over the real transaction bodies (model/Txn.v, model/TxnQueue.v).
    `with cache.transact(): call_1; ...; call_n` is ONE writing call of the machine of model/Conc.v: BEGIN when the
    block is entered, then the bodies of the inner calls applied one after the other to the working copy, then COMMIT --
-   or ROLLBACK when the block raises.  An inner call runs its own file cleanup when IT returns, i.e. while the
-   block's transaction is still open: the files it releases (the old file of a replaced or deleted value, the file of
-   a popped value after it has been read) are the block's `bo_early`.  That is what the code does, and it is the root
-   of findings C06-F1, F2, F4 and C07-F1 (proofs/TxnBlockFacts.v replays them on these bodies).
+   or ROLLBACK when the block raises.  The files the inner calls release (the old file of a replaced or deleted value,
+   the file of a popped value after it has been read) are handed to the block's transaction and removed after ITS
+   commit (Gen_Sql.transact_defers_removals, read off _transact / _remove_after_transaction): they are the block's
+   `bo_cleanup`; nothing is removed while the transaction is open (`bo_early = []`) and nothing at all when the block
+   is rolled back.  (Before the repair recorded in known_findings.txt under C06-F1 the inner calls removed these
+   files when THEY returned; proofs/TxnBlockFacts.v keeps that body as `body_block_early` and replays the old defect
+   on it.)
    An inner call that raises (KeyError of __delitem__, incr without default) leaves the working copy as it was and
    the block goes on (the program caught the exception), exactly like `raise_out`.
    Outside this instance: inner calls that store a NEW value file (the file would be created inside the open
@@ -24,7 +27,14 @@ Fixpoint block_fold (ws : list cwop) (d : st) (last : result) : st * list Z * re
 (* raises: the block's body raises after its last inner call (the exception leaves the outermost block) *)
 Definition body_block (ws : list cwop) (raises : bool) (d : st) (f : option Z) : bout :=
   let '(d', e, res) := block_fold ws d (RBool true) in
+  {| bo_db := d'; bo_early := []; bo_cleanup := e; bo_fetch := None; bo_res := res; bo_ok := negb raises |}.
+
+(* what the code did before the repair: every inner call removed the files it released when it returned *)
+Definition body_block_early (ws : list cwop) (raises : bool) (d : st) (f : option Z) : bout :=
+  let '(d', e, res) := block_fold ws d (RBool true) in
   {| bo_db := d'; bo_early := e; bo_cleanup := []; bo_fetch := None; bo_res := res; bo_ok := negb raises |}.
+Definition w_block_early (retry : bool) (ws : list cwop) (raises : bool) : cwop :=
+  {| w_store := false; w_retry := retry; w_body := body_block_early ws raises |}.
 
 Definition w_block (retry : bool) (ws : list cwop) (raises : bool) : cwop :=
   {| w_store := false; w_retry := retry; w_body := body_block ws raises |}.
